@@ -165,6 +165,20 @@ func (s *Translator) translateWith() error {
 			currentPart.projections.GroupBy = append(currentPart.projections.GroupBy, groupByItems...)
 		}
 
+		if !aggregatedItems.IsEmpty() && len(groupByItems) == 0 {
+			// Grouping keys that reference no binding are not part of groupByItems
+			selectItems := make([]pgsql.SelectItem, len(currentPart.projections.Items))
+			for idx, projectionItem := range currentPart.projections.Items {
+				selectItems[idx] = projectionItem.SelectItem
+			}
+
+			if ordinals, err := constantGroupingKeyOrdinals(selectItems); err != nil {
+				return err
+			} else {
+				currentPart.projections.GroupBy = append(currentPart.projections.GroupBy, ordinals...)
+			}
+		}
+
 		if err := s.scope.PruneDefinitions(projectedItems); err != nil {
 			return err
 		}
